@@ -4,7 +4,17 @@
 // comments only.
 package jobs
 
-import "reduction.dev/reduction/proto"
+import (
+	"time"
+
+	"reduction.dev/reduction/clocks"
+	"reduction.dev/reduction/proto"
+)
+
+// ghostNow: the reading of a clock during one call of a function under contract (assumed: the
+// clock does not advance while one Purge / Heartbeat call runs - successive readings differ by
+// the nanoseconds the loop takes; the deadline is seconds).
+var ghostNow func(c clocks.Clock) time.Time
 
 // ghost identity functions of the node stubs (pure: a stub never changes its id)
 var ghostOperatorID func(op proto.Operator) string
@@ -34,6 +44,7 @@ func forall(lo, hi int, f func(int) bool) bool {
 //@   order Deploy after AbortPendingCheckpoint
 //@   order Deploy after CurrentCheckpoint
 //@   order CurrentCheckpoint after AbortPendingCheckpoint
+//@   order Deploy after RegisterSourceSplitter
 
 // ---- job status (atomic value modelled as ghost field statusVal)
 //@ type jobStatus
@@ -50,10 +61,18 @@ func forall(lo, hi int, f func(int) bool) bool {
 //@   ensures s.statusVal == uint32(value)
 
 // ---- liveness
-// Purge forgets exactly the ids it returns; every other id keeps its heartbeat.
+//@ func ext:clocks.Clock.Now
+//@   trusted
+//@   modifies nothing
+//@   ensures result == ghostNow(self)
+
+// Purge forgets exactly the ids it returns; every other id keeps its heartbeat. It forgets
+// exactly the ids whose last heartbeat is older than the deadline: a live node is never dropped,
+// a silent one always is.
 //@ func LivenessTracker.Purge
 //@   property C15
 //@   modifies lt.m
+//@   ensures forall(func(k string) bool { return has(lt.m, k) == (has(old(lt.m), k) && !old(lt.m)[k].Before(ghostNow(lt.clock).Add(-lt.deadline))) })
 //@   ensures forall(func(k string) bool { return has(lt.m, k) ==> has(old(lt.m), k) && lt.m[k] == old(lt.m)[k] })
 //@   ensures forall(func(k string) bool { return has(old(lt.m), k) && !has(lt.m, k) ==> exists(0, len(result), func(j int) bool { return result[j] == k }) })
 //@   ensures forall(0, len(result), func(j int) bool { return has(old(lt.m), result[j]) && !has(lt.m, result[j]) })
@@ -62,11 +81,12 @@ func forall(lo, hi int, f func(int) bool) bool {
 //@     invariant forall(func(k string) bool { return has(coll_, k) && !has(lt.m, k) ==> exists(0, len(missing), func(j int) bool { return missing[j] == k }) })
 //@     invariant forall(0, len(missing), func(j int) bool { return has(coll_, missing[j]) && !has(lt.m, missing[j]) })
 //@     invariant forall(func(k string) bool { return has(coll_, k) && !has(visited_, k) ==> has(lt.m, k) })
+//@     invariant forall(func(k string) bool { return has(coll_, k) && has(visited_, k) ==> has(lt.m, k) == !coll_[k].Before(ghostNow(lt.clock).Add(-lt.deadline)) })
 
 //@ func LivenessTracker.Heartbeat
 //@   property C15
 //@   modifies lt.m
-//@   ensures has(lt.m, id) && forall(func(k string) bool { return k != id ==> has(lt.m, k) == has(old(lt.m), k) && lt.m[k] == old(lt.m)[k] })
+//@   ensures has(lt.m, id) && lt.m[id] == ghostNow(lt.clock) && forall(func(k string) bool { return k != id ==> has(lt.m, k) == has(old(lt.m), k) && lt.m[k] == old(lt.m)[k] })
 
 // ---- registry: two id-keyed maps of registered nodes
 //@ func ext:proto.Operator.ID
@@ -161,12 +181,15 @@ func forall(lo, hi int, f func(int) bool) bool {
 // evaluateClusterStatus: the job state machine. Status values: 0 Init, 1 Paused,
 // 2 AssemblyStarting, 3 Running. It leaves Running only for Paused and only when
 // the assembly is unhealthy; it enters AssemblyStarting only from Init/Paused with
-// a full assembly of registered nodes; it never sets Running itself.
+// a full assembly of registered nodes; it never sets Running itself. Health and new assemblies
+// are always judged on a registry from which the silent nodes were purged in this very call.
 //@ func Job.evaluateClusterStatus
 //@   property C15
 //@   nosafety
 //@   requires j.registry != nil && j.status != nil && regInv(j.registry) && j.registry.taskCount >= 0
 //@   requires j.status.statusVal == 3 ==> j.assembly != nil
+//@   order Healthy after Purge
+//@   order NewAssembly after Purge
 //@   atcall Set@0: arg0 == StatusPaused && !ok
 //@   atcall Set@1: arg0 == StatusAssemblyStarting && err == nil && assembly != nil && len(assembly.operators) == j.registry.taskCount && len(assembly.sourceRunners) == j.registry.taskCount
 //@   ensures j.status.statusVal == 3 ==> old(j.status.statusVal) == 3
